@@ -561,3 +561,73 @@ Proof. exact writer_row_emit. Qed.
 Print Assumptions C05_writer_row_emit.
 Example C05_writer_row_instance : row_ok (mkRow 15 0 0 16 (map Ch [72; 105; 32; 116; 104; 101; 114; 101])) = true.
 Proof. exact writer_row_instance. Qed.
+
+(* ---- wave 8: MIXED per-code doubling - special / extended characters (mid-row codes, backspace) sent SINGLE among DOUBLED
+   preamble and mode codes, what pycaption's SCCWriter emits (proofs/SccMixedDoublingFacts.v, spec/SpecSccMixed.v) ----------- *)
+From PV Require Import spec.SpecSccMixed proofs.SccMixedDoublingFacts.
+(* a quiet word does not read the frame counter: for ALL pop-on states, words, shifts *)
+Theorem C05_quiet_word_frame_counter : forall k x w n, r_active x = MPop -> quiet w = true ->
+  translate_word (sh k x) w n = sh k (translate_word x w n).
+Proof. exact sh_tw. Qed.
+Print Assumptions C05_quiet_word_frame_counter.
+(* redundant copies: if d is m with second copies inserted after words of a doubled type (no preamble code, no cue-starting
+   command, no mid-row code; neighbours different), the reader reaches from related states related states - equal up to the
+   frame counter and the memory of the last command *)
+Theorem C05_redundant_copies_run : forall prev m d, dd prev m d -> forall wo x y nx, r_active x = MPop -> Rel wo x y ->
+  (forall u, last_is (r_last x) u = true -> prev = Some u) -> (forall w, wo = Some w -> nexto m <> Some w) ->
+  exists wo', Rel wo' (tws x m nx) (tws y d nx).
+Proof. exact dd_run. Qed.
+Print Assumptions C05_redundant_copies_run.
+Theorem C05_ddb_sound : forall m prev d, ddb prev m d = true -> dd prev m d.
+Proof. exact ddb_sound. Qed.
+Print Assumptions C05_ddb_sound.
+(* a load line with some codes single = the all-doubled load line whose End-Of-Caption has the same instant *)
+Theorem C05_load_line_mixed : forall d s tcA tcB bm bd,
+  r_err s = None -> r_active s = MPop -> last_is (r_last s) w_enm = false ->
+  dd (Some w_rcl) bm bd ->
+  same_clock (r_offset s) tcB (Z.of_nat (length bd) - Z.of_nat (length bm)) tcA -> (length bm <= length bd)%nat ->
+  r_err (translate_line s (tcB, (ctl d w_enm ++ ctl d w_rcl ++ bd) ++ ctl d w_eoc)) = None ->
+  state_eq (translate_line s (tcA, (ctl d w_enm ++ ctl d w_rcl ++ bm) ++ ctl d w_eoc))
+           (translate_line s (tcB, (ctl d w_enm ++ ctl d w_rcl ++ bd) ++ ctl d w_eoc)).
+Proof. exact load_line_mixed. Qed.
+Print Assumptions C05_load_line_mixed.
+Theorem C05_read_mixed : forall d off ms evs, Forall (mseg_ok d off) ms -> forallb pseg_ok8 (mexpand ms) = true ->
+  res_map (pseg_event d off) (mexpand ms) = Ok evs ->
+  read off (map (mseg_line d) ms) = read off (map (pseg_line d) (mexpand ms)).
+Proof. exact read_msegs. Qed.
+Print Assumptions C05_read_mixed.
+(* THE REFINEMENT THEOREM FOR WRITER LINES WITH MIXED DOUBLING (for builder sccw): segments MW (wave 7) or
+   MMix tc tcE tcL tcD l bm = the line  tc: ENM RCL bm EDM EOC  with dd bm (rows of l doubled) *)
+Theorem C05_popon_refines_608_mixed : forall d off ms evs spans,
+  Forall (mseg_ok d off) ms -> forallb pseg_ok8 (mexpand ms) = true ->
+  res_map (pseg_event d off) (mexpand ms) = Ok evs -> positive evs -> after_show None evs ->
+  expected_with join_threshold evs = Ok spans ->
+  exists caps, read off (map (mseg_line d) ms) = ROk caps /\
+               ok_c05 (mkProg d (ploads_of (mexpand ms))) (Ok (map observe caps)) = true /\
+               dom_c05 (mkProg d (ploads_of (mexpand ms))) = true.
+Proof. exact popon_refines_608_mixed. Qed.
+Print Assumptions C05_popon_refines_608_mixed.
+(* non-vacuity: "Hi ♪" / "a½b" as SCCWriter sends it (preamble codes doubled, 9137 / 9132 single) *)
+Example C05_mixed_instance_line : mseg_line true (mmix (mkTc 0 0 1 false 0) exm_l) =
+  (lit "00:00:01:00", [38062; 38062; 37920; 37920; 38096; 38096; 51433; 8320; 37175; 38000; 38000; 24960; 37170; 25216;
+                       37932; 37932; 37935; 37935]).
+Proof. exact exm_line. Qed.
+Example C05_mixed_instance_hyps : Forall (mseg_ok true 0) exm_ms /\ forallb pseg_ok8 (mexpand exm_ms) = true.
+Proof. exact exm_hyps. Qed.
+Example C05_mixed_instance_runs :
+  match res_map (pseg_event true 0) (mexpand exm_ms) with
+  | Ok evs => match read 0 (map (mseg_line true) exm_ms) with
+              | ROk caps => ok_c05 (mkProg true [exm_l]) (Ok (map observe caps)) && Nat.eqb (length caps) 1
+              | _ => false
+              end
+  | Err _ => false
+  end = true.
+Proof. exact exm_runs. Qed.
+(* EVERY load of writer rows - preamble code without tab offset, basic and special characters, no special character twice in a
+   row - satisfies the hypothesis dd of C05_popon_refines_608_mixed: the special characters single among doubled codes *)
+From PV Require Import proofs.SccMixedRowsFacts.
+Theorem C05_writer_rows_dd : forall l, Forall wrow l -> forall p, dd p (body_m l) (flat_map (emit_row true) l).
+Proof. exact writer_rows_dd. Qed.
+Print Assumptions C05_writer_rows_dd.
+Example C05_writer_rows_instance : Forall wrow exm_l.
+Proof. exact exm_wrows. Qed.
